@@ -26,6 +26,8 @@ TU = "scriptplan/_cython/time_utils_cy.pyx"
 MP = "scriptplan/parser/macro_processor.py"
 
 MUTANTS = [
+    # ------------------------------------------------------------------ revert of repaired defect F75 (C04 / C07)
+    ("c04_inherited_option_dict_cloned_whole", "C04", [(PR, "    if isinstance(value, dict):\n        return {key: deep_clone(item) for key, item in value.items()}\n", "")]),
     # ------------------------------------------------------------------ revert of repaired defect F74 (C11)
     ("c11_horizon_estimate_unguarded", "C11", [(PJ, "        try:\n            min_end_date = self.attributes[\"start\"] + timedelta(days=total_days_needed)\n        except OverflowError:\n            return\n", "        min_end_date = self.attributes[\"start\"] + timedelta(days=total_days_needed)\n")]),
     # ------------------------------------------------------------------ revert of repaired defect F73 (C09)
